@@ -66,7 +66,7 @@ def rand_flags(rng):
 def gen_cases(run, thorough):
     rng = run.rng
     cases = [mc.case_from_line(l) for l in CORPUS]
-    scale = 6 if thorough else 1
+    scale = 10 if thorough else 2
 
     def other(rng):
         return rng.choice(OTHER_SPAWNERS)
